@@ -1599,6 +1599,15 @@ def loop_variable_after_loop(f: FuncInfo):
         return out
     for lp in (x for x in own_nodes(f.node) if isinstance(x, ast.For)):
         names = {x.id for x in ast.walk(lp.target) if isinstance(x, ast.Name)}
+        # … and the flags the body resets at the start of every iteration (`changed = False` as a statement of the loop body): after
+        # the loop they say what the LAST iteration found, not whether any did
+        resets = {st.targets[0].id: st.value.value for st in lp.body if isinstance(st, ast.Assign) and len(st.targets) == 1 and isinstance(st.targets[0], ast.Name)
+                  and isinstance(st.value, ast.Constant) and isinstance(st.value.value, bool)}
+        for nm, v0 in resets.items():
+            # reset to one truth value at the top of the body, set to the other somewhere inside it
+            if any(isinstance(a, ast.Assign) and any(isinstance(t, ast.Name) and t.id == nm for t in a.targets) and isinstance(a.value, ast.Constant)
+                   and isinstance(a.value.value, bool) and a.value.value is not v0 for st in lp.body for a in ast.walk(st)):
+                names.add(nm)
         blk = getattr(lp, "_parent", None)
         for fld in ("body", "orelse", "finalbody"):
             b = getattr(blk, fld, None)
